@@ -165,6 +165,14 @@ def run_topo(spec, res):
             b = int(rng.integers(0, n))
             net["slack"].append(dict(idx="GS%d" % j, bus=b + 1, Sn=100.0, Vn=net["bus"][b]["Vn"], v0=1.0, a0=0.0, p0=0.1, q0=0.0,
                                      u=int(rng.random() < 0.7)))
+    # own random stream for options added later (earlier patterns stay what they were)
+    rng2 = rng_for(spec.get("seed", 0), PROPERTY, 7, spec["index"])
+    if rng2.random() < 0.35:
+        # a second slack generator on a bus that already has one: classification counts generators, not buses
+        s0 = net["slack"][int(rng2.integers(0, len(net["slack"])))]
+        net["slack"].append(dict(s0, idx="GD%s" % s0["idx"], u=int(rng2.random() < 0.8)))
+        res.count("patterns_with_two_slacks_on_one_bus")
+    ipadd = int(rng2.random() < 0.6)
     mode = int(rng.integers(0, 6))
     ul = random_status(rng, len(net["line"]), mode)
     for ln, u in zip(net["line"], ul):
@@ -178,6 +186,8 @@ def run_topo(spec, res):
         for jp in jumpers:
             jp["bus1"], jp["bus2"] = bm["B%d" % jp["bus1"]], bm["B%d" % jp["bus2"]]
     ss = gn.build_system(net, setup=False)
+    ss.config.ipadd = ipadd           # both ways of accumulating the Jacobian (in place / rebuild) patch the isolated buses
+    res.count("patterns_ipadd_%d" % ipadd)
     for jp in jumpers:
         ss.add("Jumper", dict(jp))
     ss.setup()
@@ -213,6 +223,17 @@ def run_topo(spec, res):
                 res.violate("isolated_not_neutralised", "NaN in solution with isolated buses")
         else:
             res.count("pf_with_isolated_nonconverged")
+            # "cannot spoil convergence": decided with the own solver on the same data (isolated buses left out there) -
+            # well-posed as in C01 when the own Newton iteration needs no more than 10 steps
+            from vf.oracle import powerflow as opf
+            d, unsupported = opf.extract(ss)
+            d["bus_u"] = np.array(ss.Bus.u.v, dtype=float)
+            ref = opf.solve(d, tol=1e-8, max_iter=10) if (not unsupported and not jumpers) else None
+            if ref is not None and ref["converged"] and np.all(np.abs(ref["V"][ref["live"]]) > 0.5):
+                res.violate("isolated_spoils_convergence", "power flow with isolated bus(es) %s (ipadd=%d) does not converge (%s) although the network "
+                            "without them is well-posed (own Newton: %d iterations)" % (exp["isolated"][:6], ipadd, err, ref["iters"]), ipadd=ipadd)
+            else:
+                res.count("pf_with_isolated_rest_infeasible_or_outside_oracle")
 
 
 def attached(ss, off_bus):
@@ -358,6 +379,33 @@ def run_tds(spec, res):
     ss.setup()
     install_monitor(ss, res, "tds:" + spec["path"])
     res.sig = "tds:%s:%d" % (spec["path"], spec["index"])
+    # a user-flagged event (documented in cases/ieee14/pert.py): a perturbation callback opens a branch during the run and sets
+    # TDS.custom_event; what the system reports about islands afterwards must describe the graph as it then is.  The branch is
+    # one whose end buses keep another in-service branch (the callback runs before the step: isolating a bus there is a
+    # different, documented limitation of the loop order).
+    rng2 = rng_for(spec.get("seed", 0), PROPERTY, 8, spec["index"], abs(hash(spec["path"])) % 1000)
+    custom = dict(done=False, line=None)
+    if rng2.random() < 0.6 and getattr(ss, "Fortescue", None) is not None and ss.Fortescue.n == 0:
+        t_c = float(np.round(rng2.uniform(0.62, 0.68), 3))       # after every scheduled toggle
+
+        def pert(t, system, _c=custom):
+            if _c["done"] or t < t_c:
+                return
+            _c["done"] = True
+            pos = {b: i for i, b in enumerate(system.Bus.idx.v)}
+            deg = np.zeros(system.Bus.n, dtype=int)
+            for k_ in range(system.Line.n):
+                if system.Line.u.v[k_] != 0:
+                    deg[pos[system.Line.bus1.v[k_]]] += 1
+                    deg[pos[system.Line.bus2.v[k_]]] += 1
+            cand = [k_ for k_ in range(system.Line.n) if system.Line.u.v[k_] != 0 and deg[pos[system.Line.bus1.v[k_]]] >= 2 and deg[pos[system.Line.bus2.v[k_]]] >= 2]
+            if not cand:
+                return
+            k_ = cand[int(rng2.integers(0, len(cand)))]
+            system.Line.alter("u", system.Line.idx.v[k_], 0)
+            system.TDS.custom_event = True
+            _c["line"] = system.Line.idx.v[k_]
+        ss.TDS.callpert = pert
     try:
         if not ss.PFlow.run():
             res.count("pf_failed")
@@ -365,7 +413,12 @@ def run_tds(spec, res):
             return
         ss.TDS.config.tf = 0.7
         ss.TDS.config.no_tqdm = 1
-        ss.TDS.run()
+        completed = bool(ss.TDS.run())
+        if custom["line"] is not None and not completed:
+            res.count("custom_events_run_failed_afterwards")      # e.g. the opened branch left an island without a source: reported failure
+        if custom["line"] is not None and completed:
+            res.count("custom_events_applied")
+            check_connectivity_state(res, ss, "tds:%s after the user-flagged event (branch %r opened by the perturbation callback)" % (spec["path"], custom["line"]))
     except Exception as e:
         import traceback
         tb = traceback.extract_tb(e.__traceback__)
